@@ -46,31 +46,34 @@ Definition reduce_fn (f : rfn) (r v : Z) : Z :=
 
 Inductive case :=
 | KStage (c : comb) (nil_in : bool) (incap : nat) (ins outs : list Z) (closed cancelled : bool)
+         (calls : list Z)        (* the arguments the user's predicate / map function was called with, in order *)
 | KFanIn (ins : list (list Z)) (outs : list Z) (closed : bool)          (* FanInRec / MergeChannel; a nil source is [] *)
 | KFanOut (async : bool) (ins : list Z) (outs : list (list Z)) (closed : list bool)
-| KReduce (nil_in : bool) (a : rfn) (ins : list Z) (result : Z)
+| KReduce (nil_in : bool) (a : rfn) (ins : list Z) (result : Z) (calls : list (Z * Z))   (* reducer argument pairs *)
 | KOrderly (n : nat) (log : list (nat * bool)) (returned : bool).
 
+Definition zz_eqb (x y : Z * Z) : bool := (fst x =? fst y) && (snd x =? snd y).
 Definition isnil {A} (l : list A) : bool := match l with [] => true | _ => false end.
 
 (* the property, on what the implementation showed *)
 Definition prop_ok (c : case) : bool :=
   match c with
-  | KStage cb nil_in incap ins outs closed cancelled =>
+  | KStage cb nil_in incap ins outs closed cancelled calls =>
       closed && (negb nil_in || isnil ins) &&
-      stage_rel_b Z.eqb (tr_of (kind_of_comb cb)) incap ins outs closed cancelled
+      stage_rel_c_b Z.eqb (tr_of (kind_of_comb cb)) (uses_of (kind_of_comb cb)) incap ins outs closed cancelled calls
   | KFanIn ins outs closed => closed && fanin_rel_b Z.eqb ins outs closed
   | KFanOut async ins outs closed =>
       forallb (fun b => b) closed && fanout_rel_b Z.eqb async (length outs) ins outs closed
-  | KReduce nil_in a ins result =>
-      (negb nil_in || isnil ins) && (result =? reduce_spec 0 (reduce_fn a) ins)
+  | KReduce nil_in a ins result calls =>
+      (negb nil_in || isnil ins) && (result =? reduce_spec 0 (reduce_fn a) ins) &&
+      list_eqb zz_eqb calls (reduce_calls (reduce_fn a) ins)
   | KOrderly n log returned => returned && orderly_rel_b n log returned
   end.
 
 (* without cancellation the output is the list function itself *)
 Definition model_ok (c : case) : bool :=
   match c with
-  | KStage cb _ _ ins outs closed cancelled =>
+  | KStage cb _ _ ins outs closed cancelled _ =>
       cancelled || negb closed || leqb Z.eqb outs (fn_of (kind_of_comb cb) ins)
   | _ => true
   end.
@@ -83,19 +86,26 @@ Definition mismatches (cs : list case) : list (nat * nat) := find_bad check_case
 (* what an accepted case means *)
 Definition case_rel (c : case) : Prop :=
   match c with
-  | KStage cb nil_in incap ins outs closed cancelled =>
+  | KStage cb nil_in incap ins outs closed cancelled calls =>
       closed = true /\ (nil_in = true -> ins = []) /\
-      stage_rel (tr_of (kind_of_comb cb)) incap ins outs closed cancelled
+      stage_rel_c (tr_of (kind_of_comb cb)) (uses_of (kind_of_comb cb)) incap ins outs closed cancelled calls
   | KFanIn ins outs closed => closed = true /\ Merge ins outs
   | KFanOut async ins outs closed =>
       Forall (fun b => b = true) closed /\ fanout_rel Z.eqb async (length outs) ins outs closed
-  | KReduce nil_in a ins result =>
-      (nil_in = true -> ins = []) /\ result = match ins with [] => 0 | x :: r => fold_left (reduce_fn a) r x end
+  | KReduce nil_in a ins result calls =>
+      (nil_in = true -> ins = []) /\ result = match ins with [] => 0 | x :: r => fold_left (reduce_fn a) r x end /\
+      calls = reduce_calls (reduce_fn a) ins
   | KOrderly n log returned => returned = true /\ log = orderly_expected n
   end.
 
 Lemma Zeqb_ok : forall a b : Z, Z.eqb a b = true <-> a = b.
 Proof. exact Z.eqb_eq. Qed.
+
+Lemma zz_eqb_ok a b : zz_eqb a b = true <-> a = b.
+Proof.
+  unfold zz_eqb. rewrite andb_true_iff, !Z.eqb_eq. destruct a, b. cbn [fst snd].
+  split; [intros [-> ->]; reflexivity|intros E; inversion E; auto].
+Qed.
 
 Lemma isnil_ok {A} (l : list A) : isnil l = true <-> l = [].
 Proof. destruct l; cbn; split; congruence. Qed.
@@ -109,13 +119,13 @@ Qed.
 
 Theorem prop_ok_spec c : prop_ok c = true <-> case_rel c.
 Proof.
-  destruct c as [cb nil_in incap ins outs closed cancelled|ins outs closed|async ins outs closed|nil_in a ins result|n log returned];
+  destruct c as [cb nil_in incap ins outs closed cancelled calls|ins outs closed|async ins outs closed|nil_in a ins result calls|n log returned];
     cbn [prop_ok case_rel].
-  - rewrite !andb_true_iff, (stage_rel_b_ok Z.eqb Zeqb_ok), (imp_b _ _ _ (isnil_ok ins)). tauto.
+  - rewrite !andb_true_iff, (stage_rel_c_b_ok Z.eqb Zeqb_ok), (imp_b _ _ _ (isnil_ok ins)). tauto.
   - rewrite andb_true_iff, (fanin_rel_b_ok Z.eqb Zeqb_ok). unfold fanin_rel.
     split; [intros [-> H]; auto|intros [-> H]; auto].
   - rewrite andb_true_iff, (fanout_rel_b_ok Z.eqb Zeqb_ok), forallb_forall, Forall_forall. tauto.
-  - rewrite andb_true_iff, (imp_b _ _ _ (isnil_ok ins)), Z.eqb_eq. unfold reduce_spec. tauto.
+  - rewrite !andb_true_iff, (imp_b _ _ _ (isnil_ok ins)), Z.eqb_eq, (list_eqb_eq zz_eqb zz_eqb_ok). unfold reduce_spec. tauto.
   - rewrite andb_true_iff, orderly_rel_b_ok. unfold orderly_rel. split.
     + intros [-> [_ H]]. auto.
     + intros [-> ->]. split; [reflexivity|]. split; [exists []; now rewrite app_nil_r|reflexivity].
